@@ -145,8 +145,22 @@ def run_inline(prog):
             other.execute()
     events = []
     for k in sorted(copies):
+        m = copies[k]
+        steps = list(m.systems["traj"].records)
         events.append({"op": "run", "key": _key(prog), "copy": k, "where": prog.get("where", "inline"),
-                       "out": "ok", "steps": copies[k].systems["traj"].records})
+                       "out": "ok", "steps": steps})
+        if prog.get("finale", True):
+            # after the run: mark the model complete (configurations with churn) and let the framework draw once more on its
+            # behalf - a "winner" pick and a final shuffle - with the ambient state perturbed in between the copies.
+            # Its own event: comparable only between runs of the same length.
+            perturb(k % 3, salt + k)
+            if "churn" in c["mix"]:
+                m.complete()
+            a = m.environment.get_random_agent()
+            post = {"t": -1, "post_pick": "None" if a is None else a.id,
+                    "post_order": [x.id for x in m.environment.shuffle()], "running": bool(m.is_running())}
+            events.append({"op": "run", "key": _key(prog) + "/after %d steps" % len(steps), "copy": k,
+                           "where": prog.get("where", "inline"), "out": "ok", "steps": [post]})
     return events
 
 
@@ -181,7 +195,8 @@ def run_program(prog):
     """One trace: the reference run (inline, no perturbation) followed by the runs of the program."""
     c = prog["config"]
     n_steps = max(1, sum(1 for s in prog["schedule"] if s[0] == "A" and s[1] == 1), sum(1 for s in prog["schedule"] if s[0] == "A" and s[1] == 2))
-    ref = run_inline({"config": c, "seed": prog["seed"], "schedule": [["A", 1]] * n_steps})
+    ref = run_inline({"config": c, "seed": prog["seed"], "schedule": [["A", 1]] * n_steps,
+                      "finale": prog.get("where", "inline") != "worker"})
     where = prog.get("where", "inline")
     if where == "inline":
         rest = run_inline(prog)
@@ -228,8 +243,16 @@ def random_schedule(rng, steps=6):
 
 
 def tamper(trace, rng):
-    if len(trace) < 2 or not trace[-1]["steps"]:
+    """Corrupt one observation of a run whose key was already seen (so that it has something to disagree with)."""
+    seen = {}
+    cands = []
+    for i, e in enumerate(trace):
+        if e["key"] in seen and e["steps"] and len(e["steps"]) <= seen[e["key"]]:
+            cands.append(i)
+        seen[e["key"]] = max(seen.get(e["key"], 0), len(e["steps"]))
+    if not cands:
         return None
-    st = trace[-1]["steps"][rng.randrange(len(trace[-1]["steps"]))]
+    e = trace[rng.choice(cands)]
+    st = e["steps"][rng.randrange(len(e["steps"]))]
     st["t"] += 1
     return trace
